@@ -164,6 +164,8 @@ pub struct Exec {
     /// last output buffer after the call (whole buffer)
     pub last_buf: Vec<u8>,
     pub panics: usize,
+    /// resolver instances that live as long as this executor (`resolve_on`): one per expression
+    pub resolvers: HashMap<String, snow::resolvers::BoxedCryptoResolver>,
 }
 
 fn drain(log: &Log) -> Vec<Ev> {
@@ -178,6 +180,7 @@ impl Exec {
             res: Vec::new(),
             last_events: Vec::new(),
             last_buf: Vec::new(),
+            resolvers: HashMap::new(),
             panics: 0,
         }
     }
@@ -712,6 +715,27 @@ impl Exec {
         self.record(op, res.clone());
         res
     }
+
+    /// Like `resolve`, but on ONE resolver instance per expression kept for the whole scenario: a resolver must
+    /// answer every request independently of the requests made before.
+    pub fn resolve_on(&mut self, expr: &str, kind: &str, choice: &str) -> String {
+        let op = format!("resolve_on {expr} {kind} {choice}");
+        if !self.resolvers.contains_key(expr) {
+            match resolver_from_expr(expr) {
+                Some(r) => {
+                    self.resolvers.insert(expr.to_string(), r);
+                },
+                None => {
+                    self.record(op, "badexpr".into());
+                    return "badexpr".into();
+                },
+            }
+        }
+        let r = self.resolvers.get(expr).unwrap();
+        let res = catch_unwind(AssertUnwindSafe(|| resolve_with(&**r, kind, choice))).unwrap_or_else(|_| "panic".into());
+        self.record(op, res.clone());
+        res
+    }
 }
 
 pub fn dh_choice(s: &str) -> Option<DHChoice> {
@@ -742,6 +766,10 @@ pub fn hash_choice(s: &str) -> Option<HashChoice> {
 
 pub fn resolve_line(expr: &str, kind: &str, choice: &str) -> String {
     let Some(r) = resolver_from_expr(expr) else { return "badexpr".into() };
+    resolve_with(&*r, kind, choice)
+}
+
+pub fn resolve_with(r: &dyn snow::resolvers::CryptoResolver, kind: &str, choice: &str) -> String {
     match kind {
         "rng" => match r.resolve_rng() {
             None => "none".into(),
